@@ -13,7 +13,7 @@ if '--from-seeded' in flags:
     src = '/verif/seeded/%s-%s' % (prop, n)
 patch = os.path.join(src, 'patch%s.diff' % n if os.path.exists(os.path.join(src, 'patch%s.diff' % n)) else 'patch.diff')
 demo = os.path.join(src, 'demo%s.py' % n if os.path.exists(os.path.join(src, 'demo%s.py' % n)) else 'demo.py')
-WT = '/tmp/vf_wt'
+WT = os.environ.get('VF_WT', '/tmp/vf_wt')
 def sh(cmd, **kw):
     return subprocess.run(cmd, shell=True, capture_output=True, text=True, **kw)
 if not os.path.isdir(WT):
